@@ -1,6 +1,6 @@
 (* C07 — processing is idempotent: a second run changes and reports nothing.
    Property theorems only: each is closed by `exact <lemma>`. *)
-From AD Require Import Bytes Outcome Gen Gzip GzipProofs Ar ArSpec ArProofs ArIdem PycHeader PycHeaderProofs Date Zip ZipProofs ZipRoundTrip Walk Javadoc JavadocProofs JavadocVariants StripIdem Fs Helper HelperProofs Idem.
+From AD Require Import Bytes Outcome Gen Gzip GzipProofs Ar ArSpec ArProofs ArIdem PycHeader PycHeaderProofs Date Zip ZipProofs ZipRoundTrip Walk Javadoc JavadocProofs JavadocVariants StripIdem Fs Helper HelperProofs Idem Marshal Pyc PycRoundTrip.
 
 (* byte level: the handler finds nothing to change in its own output *)
 Theorem C07_gzip : forall epoch x y hm,
@@ -13,6 +13,17 @@ Proof. exact ar_idempotent. Qed.
 
 Theorem C07_pyc_zero_mtime : forall x y hm, pyc_zero_mtime x = Ok (y, hm) -> pyc_zero_mtime y = Ok (y, false).
 Proof. exact zero_mtime_idempotent. Qed.
+
+(* pyc, the rewriting handler: run on its own output it re-reads the tree it wrote and writes the same bytes.
+   Domain as in C02_roundtrip: the tree read from the input has the shape the reader produces, stays within
+   the nesting limit, and the output is shorter than 4 GiB.  (Files for Python < 3.4 are returned as they are:
+   C02_old_versions_untouched.) *)
+Theorem C07_pyc : forall x y hm ver hl v rest0 r0,
+  pyc_process x = Ok (y, hm) -> pyc_header x = Ok (ver, hl) -> ver_ltb ver pyc_skip_below = false ->
+  parse ver (S (length (skipn hl x))) 0 (skipn hl x) [] = Ok (v, rest0, r0) ->
+  wfb (code_layout ver) v = true -> (vdepth v <= pyc_max_depth)%nat -> N.of_nat (length y) < 4294967296 ->
+  pyc_process y = Ok (y, false).
+Proof. exact pyc_idempotent. Qed.
 
 (* zip/jar: no member of the output is later than the epoch *)
 Theorem C07_zip_members_settled : forall epoch d t o, (dos_min <= epoch <= dos_max)%Z -> dos_of_unix epoch = Some (d, t) ->
@@ -59,6 +70,7 @@ Proof. exact not_replaced_untouched. Qed.
 Print Assumptions C07_gzip.
 Print Assumptions C07_ar.
 Print Assumptions C07_pyc_zero_mtime.
+Print Assumptions C07_pyc.
 Print Assumptions C07_javadoc_stamps_partial.
 Print Assumptions C07_zip_members_settled.
 Print Assumptions C07_zip_second_pass.
